@@ -527,6 +527,8 @@ CANARIES = [
     ('_get_tensor_transformation_params_wrapper: shared parameters keep the other tensor\'s quantized_data (the pre-fix behaviour: recomputation branch dropped)', cc.UTILS,
      [('  elif isinstance(quant_params, qtyping.UniformQuantParams):', '  elif False:')], 'materialize',
      ['CONCATENATION.srq-a8asym.constant-operands-x1.every-rewritten-constant-carries-its-own-quantized-data', 'SPLIT.srq-a8asym.constant-operands-x.no-activation-carries-quantized-data', 'RESHAPE.srq-a16sym.constant-operands-x.no-activation-carries-quantized-data']),
+    ('insert_quant: quantize_tensor applied to the SOURCE tensor instead of the new one', QI_, [('          new_tensor_id,\n          transformation_input.op_codes,', '          transformation_input.tensor_id,\n          transformation_input.op_codes,')], 'callsites', ['quantizes-a-new-activation-tensor-with-the-given-parameters']),
+    ('performer: dispatch drops instruction.parameters', 'transformation_performer.py', [('            instruction.parameters,\n        )', '            None,\n        )')], 'callsites', ['dispatch-receives-instruction.tensor_id-and-instruction.parameters']),
     ('_get_tensor_quant_params: quantized data returned flattened', cc.UTILS, [('      quantized_data=quantized_vars,\n  )', '      quantized_data=quantized_vars.flatten(),\n  )')], 'materialize', ['CONV_2D.srq-a8asym.weights-only-constants.every-rewritten-constant-carries-its-own-quantized-data', 'ADD.srq-a8asym.constant-operands-x1.every-rewritten-constant-carries-its-own-quantized-data']),
     ('_get_tensor_quant_params: content quantized with other parameters than those returned', cc.UTILS, [('        tensor_content, quant_params\n    )', '        tensor_content, qtyping.UniformQuantParams(scale=scale * 2, zero_point=zp, num_bits=tensor_quant_config.num_bits, symmetric=tensor_quant_config.symmetric, quantized_dimension=quantized_dim)\n    )')], 'params', ['b8.sym.channelwise.constant.stored-data-is-uniform_quantize(content,returned-params)']),
 ]
